@@ -649,6 +649,27 @@ def _preload() -> None:
     rec_class("ScheduledObserver")
 
 
+def carrier_equivalence(ck, explore, jobs) -> None:
+    """thorough-tier self-check of the pooled-thread runner: a sample of scenarios is explored with pooled carrier threads
+    and with fresh OS threads per execution; the sets of distinct traces must be identical (same schedules, same
+    behaviour - no thread-local state of the code under test leaks from one execution into the next)"""
+    global _FAST_REUSE
+    if _fast is None or not _FAST_REUSE:
+        ck.note("pooled_thread_equivalence", "not applicable (plain DetSched in use)")
+        return
+    sample = jobs[:: max(1, len(jobs) // 6)][:6]
+    small = [(j[0], 2, 60, 3, j[4], j[5]) for j in sample]
+    pooled = [sorted(json.dumps(t[0], sort_keys=True) for t in explore(j)["traces"]) for j in small]
+    _FAST_REUSE = False
+    try:
+        fresh = [sorted(json.dumps(t[0], sort_keys=True) for t in explore(j)["traces"]) for j in small]
+    finally:
+        _FAST_REUSE = True
+    if pooled != fresh:
+        raise RuntimeError("pooled carrier threads and fresh threads produced different traces for the same schedules")
+    ck.note("pooled_thread_equivalence", f"{len(small)} scenarios x 63 schedules: identical trace sets with pooled and fresh OS threads")
+
+
 def _pool_map(fn, jobs, procs: int, timeout: int):
     """fork pool with an overall deadline (a hang of the controlled scheduler is a machinery failure, not a verdict)"""
     import multiprocessing as mp
@@ -738,6 +759,8 @@ def ser_run(pid: str, tier: str, rule: str, assumptions: List[str]) -> int:
             batch.append((tr, r["scenario"], n, dec, lines))
     if ck.extra.get("conc_steplimit"):
         raise RuntimeError("step limit hit in a C43 execution (machinery)")
+    if not quick:
+        carrier_equivalence(ck, ser_explore, jobs)
     ck.note("conc_executions", total)
     ck.note("preemption_bound", bound)
     ck.note("scenarios_with_arrival_order", len(scs))
@@ -1045,7 +1068,9 @@ def so_traces(ds: detsched.DetSched) -> List[List[Dict[str, Any]]]:
     out = []
     for k in range(max(rig.n_so, rig.n_sink)):
         tr = [dict(e) for e in ds.trace if e.get("so") == k]
-        out.append(tr + end)
+        # witness only (ignored by the trace specification): did ANOTHER observer's callback raise in this execution?
+        foreign = any(e.get("e") == "dend" and e.get("raised") and e.get("so") != k for e in ds.trace)
+        out.append(tr + [dict(e, other_observer_raised=foreign) if e["e"] == "idle" else e for e in end])
     return out
 
 
@@ -1157,6 +1182,7 @@ def so_scenarios(tier: str, seed: int) -> List[Dict[str, Any]]:
         add("observe_on_merge", ("NC", "NE"), "eventloop", 0, 2, 250)
         add("replay", ("NNC", "U"), "eventloop", 0, 3, 250)
         add("replay", ("NNE", "U"), "newthread", 2, 2, 200)
+        add("replay", ("NNC", "U"), "eventloop", 2, 1, 120)       # the other subscriber's callback raises on the shared loop
     else:
         for sched in ("eventloop", "eventloop_exit", "newthread", "timeout"):
             for scr in ("C", "NC", "NNC", "NNNC", "NNNNC", "NNE", "NCN", "NEC", "NNN"):
@@ -1263,6 +1289,8 @@ def so_run(pid: str, tier: str, rule: str, assumptions: List[str]) -> int:
             batch.append((tr, r["scenario"], n, dec, lines, so_id))
     if ck.extra.get("conc_steplimit"):
         raise RuntimeError("step limit hit in a C32 execution (machinery)")
+    if not quick:
+        carrier_equivalence(ck, so_explore, jobs)
     rejected, ress = tracecheck.validate("ScheduledObserverTrace", SO_TRACE_CONSTS, [b[0] for b in batch] + [t for (_, _, t) in SO_SELFTEST],
                                          invariants=SO_TRACE_INVS, timeout=1800, chunk=100000)
     rejected = check_selftest("ScheduledObserverTrace", SO_SELFTEST, len(batch), rejected)
@@ -1272,9 +1300,20 @@ def so_run(pid: str, tier: str, rule: str, assumptions: List[str]) -> int:
     for (idx, upto) in rejected:
         tr, sc, n, dec, lines, so_id = batch[idx]
         w = so_witness(tr, upto)
+        # witness for the known finding: the observer itself did not fault, but another observer's callback raised on the
+        # SAME single-threaded event loop, whose thread the exception killed
+        own_fault = any(e["e"] == "dend" and e["raised"] for e in tr)
+        starved = (w["failure"] == "undelivered_while_idle" and not own_fault and bool(tr[upto].get("other_observer_raised"))
+                   and sc["sched"] in ("eventloop", "eventloop_exit"))
         ck.fail({"engine": "scheduled_observer", "kind": sc["kind"], "sched": sc["sched"], "failure": w["failure"], "raise_at": sc["raise_at"],
+                 "starved_by_foreign_fault_on_shared_event_loop": starved,
                  "scheduled_observer": so_id, "witness": w, "scenario": sc, "rejected_at": upto, "trace": tr, "schedules_with_this_trace": n,
                  "decisions": dec, "line_switch_points": lines})
+    summ: Dict[str, int] = {}
+    for v in ck.violations:
+        k = f"{v['kind']} {v['sched']} {v['failure']} raise_at={v['raise_at']} observer={v['scheduled_observer']}"
+        summ[k] = summ.get(k, 0) + 1
+    ck.note("unexplained_violation_summary", summ)
     for want in ("observe_on", "replay"):
         for b in batch:
             if b[1]["kind"] == want and len(b[0]) >= 8:
